@@ -7,7 +7,7 @@
 (* judge the observations of the real code:                                *)
 (*   C06 well-formed occurrences, C07 span re-validation, C09 declarative  *)
 (*   lone-number policy, C15 iterator = batch, bounded look-ahead, hints,  *)
-(*   C02 spliceable occurrence lists.                                      *)
+(*   C02 spliceable occurrence lists and the token-wise stream rewrite.    *)
 (***************************************************************************)
 EXTENDS Scanner, TLC
 P == INSTANCE Props
@@ -64,5 +64,9 @@ LookaheadOK == \A t \in Thrs :
 HintsHonoured == \A t \in Thrs : \A k \in 1..Len(Occs(t)) : LET o == Occs(t)[k] IN
    /\ \A i \in (o.s + 1)..o.e : ~stream[i].nan
    /\ \A i \in (o.s + 2)..o.e : ~stream[i].sep
+\* C02, token-wise: every input token is kept as is or handed exactly once, in order, to the constructor of the one occurrence covering it
+StreamRewriteOK == \A t \in Thrs :
+   P!VerdictC02s([toks |-> [i \in 1..Len(stream) |-> [t |-> stream[i].text]]],
+                 [stream |-> [st |-> "ok", v |-> ReplaceInStream(L, stream, t, CodeLinking)], batch |-> [st |-> "ok", v |-> Occs(t)]]) = ""
 Bound == TRUE
 =============================================================================
